@@ -39,7 +39,7 @@ class NSEC(dns.rdata.Rdata):
         self.next = self._as_name(next)
         if not isinstance(windows, Bitmap):
             windows = Bitmap(windows)
-        self.windows = tuple(windows.windows)
+        self.windows = tuple((window, octets) for window, octets in windows.windows)
 
     def to_styled_text(self, style: dns.rdata.RdataStyle) -> str:
         text = Bitmap(self.windows).to_text()
